@@ -467,6 +467,23 @@ class Translator:
         if len(hits) != 1:
             fail(xm.rel, ca, 'Expr.__compat_add__: phasor conversion branches not found exactly once')
         self.compat_guard = hits[0]
+        # (a') how check_units compares the operand units: the canonical unit expressions, or the simplified ratio
+        REST = 'self.sympy != 0 and (x.sympy != 0) and (not (state.loose_units and (self.is_undefined or x.is_undefined)))'
+        blocks = [st for st in ca.body if isinstance(st, ast.If) and ast.unparse(st.test) == 'state.check_units']
+        if len(blocks) != 1 or blocks[0].orelse:
+            fail(xm.rel, ca, 'Expr.__compat_add__: expected exactly one `if state.check_units:` block')
+        bsrc = [ast.unparse(b) for b in blocks[0].body]
+        inner = blocks[0].body[-1]
+        if not (isinstance(inner, ast.If) and not inner.orelse and len(inner.body) == 1 and
+                ast.unparse(inner.body[0]).startswith('self._incompatible(x, op, ')):
+            fail(xm.rel, blocks[0], 'Expr.__compat_add__: unrecognised check_units block')
+        test = ast.unparse(inner.test)
+        if bsrc[:-1] == ['sunits = self.canonical_units', 'xunits = x.canonical_units'] and test == 'sunits != xunits and ' + REST:
+            self.units_cmp = 'canonical'
+        elif bsrc[:-1] == [] and test == 'units.simplify_units(self.units / x.units) != 1 and ' + REST:
+            self.units_cmp = 'ratio'
+        else:
+            fail(xm.rel, inner, 'Expr.__compat_add__: unrecognised comparison of the operand units')
         # (b) units of a sum
         SUM_UNITS = ['for operand in (self, x):\n    if operand.__class__ is cls and operand.sympy != 0:\n        ret.units = operand.units\n        break',
                      'return ret']
